@@ -356,9 +356,9 @@ pub fn handle_hincrby(storage: &Arc<StorageEngine>, db: usize, parts: &[RespFram
     // Extract increment
     let increment = match &parts[3] {
         RespFrame::BulkString(Some(bytes)) => {
-            match String::from_utf8_lossy(bytes).parse::<i64>() {
-                Ok(n) => n,
-                Err(_) => return Ok(RespFrame::error("ERR value is not an integer or out of range")),
+            match crate::storage::value::parse_strict_i64(bytes) {
+                Some(n) => n,
+                None => return Ok(RespFrame::error("ERR value is not an integer or out of range")),
             }
         }
         _ => return Ok(RespFrame::error("ERR invalid increment format")),
